@@ -7,7 +7,8 @@
     nodetest_table_sound axis_table_sound pred_eval_sound pred_outcome_sound
     substring_not_xpath ne_absent_not_xpath step_matches_eq_xp parser_rejects_outside
     select_eq_xp_step select_eq_xp_chain select_eq_xp_childpath select_eq_xp_union
-    select_eq_xp_nonpositional select_eq_xp_nonpositional_default parser_accepts_subset_partial
+    select_eq_xp_nonpositional select_eq_xp_nonpositional_default pattern_matches_eq_xp
+    parser_accepts_subset_partial
 -/
 import Genshi.Model.Path
 import Genshi.Model.PathParse
@@ -676,6 +677,69 @@ example : select [[⟨.child, .localName false ['a'], []⟩, ⟨.descendantOrSel
          [Node.elem ⟨[], ['c']⟩ [(⟨[], ['k']⟩, ['1'])] [], Node.elem ⟨[], ['c']⟩ [] []]],
        Node.elem ⟨[], ['c']⟩ [(⟨[], ['k']⟩, ['2'])] []]).flatten (some .generic)
     = [.ev (.start ⟨[], ['c']⟩ [(⟨[], ['k']⟩, ['1'])]), .ev (.end_ ⟨[], ['c']⟩)] := by decide +kernel
+
+/-- **Patterns** (`Path.test(ignore_context=True)`, what match templates use).  For a path
+    `s0/rest` without position tests and without a leading `.`, GenericStrategy in pattern mode
+    reports `True` exactly at the nodes that `descendant-or-self::s0/rest` selects from the root
+    of the stream: a pattern matches a node iff the path leads to it from *some* node of the
+    document taken as the parent of the first step. -/
+theorem pattern_matches_eq_xp (s0 : Step) (rest : LocPath) (ns : NsMap) (vs : Vars)
+    (hp : StepsOk ns vs (s0 :: rest)) (hnd : stripDot (s0 :: rest) = s0 :: rest)
+    (tag : QName) (attrs : AttrList) (kids : List Node)
+    (hcl : (Node.elem tag attrs kids).clean = true)
+    (hnodes : AllNodes (NodeFor (s0 :: rest) ns vs) (.elem tag attrs kids)) (x : Ref.LNode) :
+    selB (runTest (pathTest [s0 :: rest] true (some .generic)).1 ns vs
+            (pathTest [s0 :: rest] true (some .generic)).2 (Node.elem tag attrs kids).flatten)
+         (eventLocs (.elem tag attrs kids) []) x.loc
+      = Ref.reach ns (toXVars vs) (⟨.descendantOrSelf, s0.test, s0.preds⟩ :: rest)
+          ⟨[], .elem tag attrs kids⟩ x := by
+  have hna : (s0.axis == Axis.attribute) = false := by
+    simpa using hp.na s0 List.mem_cons_self
+  have hg : gSteps (s0 :: rest) true = ⟨.descendantOrSelf, s0.test, s0.preds⟩ :: rest := by
+    simp [gSteps, hnd, hna]
+  have hmem : ∀ s ∈ (⟨.descendantOrSelf, s0.test, s0.preds⟩ :: rest : List Step),
+      s = ⟨.descendantOrSelf, s0.test, s0.preds⟩ ∨ s ∈ s0 :: rest := by
+    intro s hs
+    rcases List.mem_cons.mp hs with h | h
+    · exact Or.inl h
+    · exact Or.inr (List.mem_cons_of_mem _ h)
+  have hS : StepsOk ns vs (⟨.descendantOrSelf, s0.test, s0.preds⟩ :: rest) := by
+    refine ⟨by simp, ?_, ?_, ?_, ?_⟩
+    · intro s hs
+      rcases hmem s hs with h | h
+      · subst h; simp
+      · exact hp.na s h
+    · intro s hs
+      rcases hmem s hs with h | h
+      · subst h; exact hp.wf s0 List.mem_cons_self
+      · exact hp.wf s h
+    · intro s hs
+      rcases hmem s hs with h | h
+      · subst h; exact hp.typed s0 List.mem_cons_self
+      · exact hp.typed s h
+    · intro s hs
+      rcases hmem s hs with h | h
+      · subst h; exact hp.nonpos s0 List.mem_cons_self
+      · exact hp.nonpos s h
+  have hN : AllNodes (NodeFor (⟨.descendantOrSelf, s0.test, s0.preds⟩ :: rest) ns vs) (.elem tag attrs kids) := by
+    refine AllNodes.imp (fun n h => ?_) _ hnodes
+    obtain ⟨h1, h2, h3, h4⟩ := h
+    refine ⟨h1, h2, h3, ?_⟩
+    intro s hs
+    rcases hmem s hs with h | h
+    · subst h; exact h4 s0 List.mem_cons_self
+    · exact h4 s h
+  simp only [pathTest, List.map_cons, List.map_nil, mkMatcher, hg]
+  rw [runTest_genericL, generic_nonpos_marks ns vs _ hS _ hcl hN x]
+  simp [RR, pathAt, convAxis, withAxis]
+
+-- non-vacuity: the pattern `b/c` on <r><a><b><c/></b></a><c/></r> matches the inner <c> only
+example : runTest (pathTest [[⟨.child, .localName false ['b'], []⟩, ⟨.child, .localName false ['c'], []⟩]]
+                      true (some .generic)).1 [] []
+    (pathTest [[⟨.child, .localName false ['b'], []⟩, ⟨.child, .localName false ['c'], []⟩]] true (some .generic)).2
+    (Node.elem ⟨[], ['r']⟩ [] [Node.elem ⟨[], ['a']⟩ [] [Node.elem ⟨[], ['b']⟩ [] [Node.elem ⟨[], ['c']⟩ [] []]],
+       Node.elem ⟨[], ['c']⟩ [] []]).flatten
+    = [.none, .none, .none, .bool true, .none, .none, .none, .none, .none, .none] := by decide +kernel
 
 /-! ## Witnesses of the recorded findings: the full statement is false of the model there -/
 
